@@ -33,7 +33,12 @@ from cxx2lean import Refuse, kids, qtype, peel  # noqa: E402
 TU = "mep_ops_tu.cc"
 
 # variable numbering (GenSem.lean)
-V_ROWS, V_PATCH, V_CATS, V_I, V_C, V_D0, V_D1, V_P0, V_P1, V_N, V_K = range(11)
+V_ROWS, V_PATCH, V_CATS, V_I, V_C, V_D0, V_D1, V_P0, V_P1, V_N, V_K, V_CODELEN, V_SSCATS = range(13)
+# V_ROWS / V_CATS are the INDIVIDUAL's own size() / categories(); V_PATCH, V_CODELEN, V_SSCATS are read from the
+# problem handed to the operator (env.mep.patch_length, env.mep.code_length, sset.categories()): the tables record
+# WHICH quantity every bound uses, the gen_* theorems quantify over environments that do not fit the individual
+
+LEAVES = ("lit", "size", "cats", "patch", "codelen", "sscats", "v")
 
 UNSIGNED = {"unsigned long", "const unsigned long", "unsigned int", "const unsigned int",
             "std::size_t", "const std::size_t"}
@@ -125,7 +130,8 @@ def free_call(n):
 
 
 # ------------------------------------------------------------------ symbolic integer expressions
-# ('lit', n) ('var', name) ('add'|'sub', a, b) ('lt'|'gt'|'le'|'ge'|'ne'|'eq', a, b) ('size',) ('cats',) ('patch',)
+# ('lit', n) ('var', name) ('add'|'sub', a, b) ('lt'|'gt'|'le'|'ge'|'ne'|'eq', a, b) ('ite', c, a, b)
+# ('size',) ('cats',) own geometry of an individual; ('patch',) ('codelen',) ('sscats',) fields of the problem
 class Scope:
     """const integer locals are substituted by their definition; loop / draw / parameter variables
     stay symbolic until the write that uses them decides their role"""
@@ -154,6 +160,9 @@ class Scope:
                 raise Refuse("integer operator %r" % n.get("opcode"))
             a, b = kids(n)
             return (op, self.expr(a), self.expr(b))
+        if k == "ConditionalOperator":
+            c, a, b = kids(n)
+            return ("ite", self.expr(c), self.expr(a), self.expr(b))
         mc = member_call(n)
         if mc is not None:
             ch, meth, args = mc
@@ -162,17 +171,29 @@ class Scope:
                     return ("size",)
                 if meth == "categories":
                     return ("cats",)
+            if ch and len(ch) == 2 and ch[0][1:] in self.problems and ch[1] == "sset" and meth == "categories" and not args:
+                return ("sscats",)
             raise Refuse("member call %s.%s in an integer expression" % (ch, meth))
         ch = member_chain(n)
-        if ch and len(ch) == 4 and ch[0][1:] in self.problems and ch[1:] == ["env", "mep", "patch_length"]:
-            return ("patch",)
+        if ch and len(ch) == 4 and ch[0][1:] in self.problems and ch[1:3] == ["env", "mep"]:
+            if ch[3] == "patch_length":
+                return ("patch",)
+            if ch[3] == "code_length":
+                return ("codelen",)
         raise Refuse("integer expression of kind %s" % k)
+
+    def fork(self):
+        """a copy for a nested block (its locals go out of scope at the end of the block)"""
+        sc = Scope(self.individuals, self.problems)
+        sc.defs = dict(self.defs)
+        sc.sym = set(self.sym)
+        return sc
 
 
 def subst(e, m):
     if e[0] == "var":
         return m.get(e[1], e)
-    if e[0] in ("lit", "size", "cats", "patch", "v"):
+    if e[0] in LEAVES:
         return e
     return (e[0],) + tuple(subst(x, m) for x in e[1:])
 
@@ -181,7 +202,7 @@ def free_vars(e, out=None):
     out = set() if out is None else out
     if e[0] == "var":
         out.add(e[1])
-    elif e[0] not in ("lit", "size", "cats", "patch", "v"):
+    elif e[0] not in LEAVES:
         for x in e[1:]:
             free_vars(x, out)
     return out
@@ -199,6 +220,12 @@ def lean_e(e):
         return "(.var %d)" % V_CATS
     if t == "patch":
         return "(.var %d)" % V_PATCH
+    if t == "codelen":
+        return "(.var %d)" % V_CODELEN
+    if t == "sscats":
+        return "(.var %d)" % V_SSCATS
+    if t == "ite":
+        return "(.ite %s %s %s)" % (lean_e(e[1]), lean_e(e[2]), lean_e(e[3]))
     if t in ("add", "sub"):
         return "(.bin .%s .i64 %s %s)" % (t, lean_e(e[1]), lean_e(e[2]))
     if t in ("lt", "gt", "le", "ge", "ne", "eq"):
@@ -547,17 +574,11 @@ def tr_ctor(res):
         raise Refuse("i_mep(problem): %d member initialisers" % len(inits))
     # genome_(p.env.mep.code_length, p.sset.categories())
     g = peel(kids(inits[1])[0]) if kids(inits[1]) else None
-    dims = []
-    if g is not None and g.get("kind") == "CXXConstructExpr" and "matrix" in qtype(g):
-        for a in kids(g):
-            ch = member_chain(a)
-            mc = member_call(a)
-            if ch:
-                dims.append(".".join(ch)[1:])
-            elif mc:
-                dims.append(".".join(mc[0])[1:] + "." + mc[1] + "()")
-    if dims != [p + ".env.mep.code_length", p + ".sset.categories()"]:
-        raise Refuse("genome_ is not built as (code_length, categories()): %r" % (dims,))
+    if not (g is not None and g.get("kind") == "CXXConstructExpr" and "matrix" in qtype(g) and len(kids(g)) == 2):
+        raise Refuse("genome_ is not built as matrix(rows, columns)")
+    scd = Scope([], [p])
+    # which quantities give the genome its size: integer expressions over the fields of the problem
+    res["ctorDims"] = [scd.expr(a) for a in kids(g)]
     b = peel(kids(inits[2])[0])
     if b.get("kind") != "InitListExpr" or len(kids(b)) != 2:
         raise Refuse("best_ initialiser")
@@ -585,28 +606,37 @@ def tr_ctor(res):
     res["ctorBest"] = best
 
 
-def tr_mutation(res):
-    docs = X.ast_dump(TU, "vita::i_mep::mutation")
-    d = find_decl(docs, "CXXMethodDecl", "mutation")[0]
-    ps = params_of(d)
-    pgm, prb = ps[0].get("name"), ps[1].get("name")
-    sc = Scope(["this"], [prb])
-    cx = Ctx(sc, "$this", sset=[("$" + prb, "sset")])
+INT_CMP = ("<", ">", "<=", ">=", "==", "!=")
+
+
+def mutation_block(stmts, sc, sset, pgm, top):
+    """One `{ unsigned n(0); …; for (i = begin(); i != end(); ++i) if (boolean(pgm)) {…}; if (n) clear; return n; }`
+    block of i_mep::mutation.  A leading `if (<integer comparison>) { <block> }` (a special case decided on the
+    sizes before the loop, each branch a complete block that returns) yields a conditional candidate.
+    Returns (candidate gene `Src`, shape)."""
+    cx = Ctx(sc, "$this", sset=sset)
     shape = {"iter": None, "coin": None, "cand": None, "guard": None, "count": False, "assign": False}
     counter = None
-    for st in kids(body_of(d)):
+    returned = False
+    for pos, st in enumerate(stmts):
         k = st.get("kind")
         if k == "NullStmt":
             continue
+        if returned:
+            raise Refuse("mutation: statement after the return")
         if k == "DeclStmt":
             v = kids(st)[0]
             if qtype(v) == "unsigned int" and strip(kids(v)[0]).get("kind") == "IntegerLiteral" and counter is None \
                     and int(strip(kids(v)[0]).get("value")) == 0:
                 counter = v.get("name")
+                if counter in sc.defs or counter in sc.sym:
+                    raise Refuse("mutation: counter %r shadows an earlier name" % counter)
                 continue
             cx.decl(v)
             continue
         if k == "ForStmt":
+            if shape["iter"] is not None:
+                raise Refuse("mutation: two loops in one block")
             init, condvar, cond, inc, body = st.get("inner")
             it = kids(init)[0]
             itname = it.get("name")
@@ -676,18 +706,42 @@ def tr_mutation(res):
             continue
         if k == "IfStmt":
             ks = kids(st)
-            if unbool(ks[0]).get("referencedDecl", {}).get("name") == counter and cx.ignorable(ks[1]):
+            c0 = strip(ks[0])
+            if counter is not None and len(ks) == 2 and unbool(ks[0]).get("referencedDecl", {}).get("name") == counter \
+                    and cx.ignorable(ks[1]):
                 continue
-            raise Refuse("mutation: trailing if")
+            if c0.get("kind") == "BinaryOperator" and c0.get("opcode") in INT_CMP and len(ks) == 2 and \
+                    ks[1].get("kind") == "CompoundStmt" and counter is None and shape["iter"] is None:
+                # a case split on the sizes, decided before anything is drawn: each branch is a whole block
+                cnd = sc.expr(c0)
+                then_src, then_shape = mutation_block(kids(ks[1]), sc.fork(), sset, pgm, False)
+                else_src, else_shape = mutation_block(stmts[pos + 1:], sc, sset, pgm, False)
+                if then_shape != else_shape:
+                    raise Refuse("mutation: the two cases do not have the same shape: %r / %r" % (then_shape, else_shape))
+                return ("cond", cnd, then_src, else_src), then_shape
+            raise Refuse("mutation: if statement with an unknown condition")
         if k == "ReturnStmt":
-            if strip(kids(st)[0]).get("referencedDecl", {}).get("name") != counter:
+            if counter is None or strip(kids(st)[0]).get("referencedDecl", {}).get("name") != counter:
                 raise Refuse("mutation does not return its counter")
+            returned = True
             continue
-        raise Refuse("mutation: top-level statement %s" % k)
+        raise Refuse("mutation: statement %s" % k)
+    if not returned:
+        raise Refuse("mutation: a block does not end with `return <counter>`")
     if None in (shape["iter"], shape["coin"], shape["cand"], shape["guard"]) or not (shape["count"] and shape["assign"]):
         raise Refuse("mutation: incomplete shape %r" % {k: v for k, v in shape.items() if k != "cand"})
-    res["mutationCand"] = shape["cand"]
-    res["mutationShape"] = [shape["iter"], "bernoulli(" + shape["coin"] + ")", shape["guard"], "count", "assign"]
+    return shape["cand"], [shape["iter"], "bernoulli(" + shape["coin"] + ")", shape["guard"], "count", "assign"]
+
+
+def tr_mutation(res):
+    docs = X.ast_dump(TU, "vita::i_mep::mutation")
+    d = find_decl(docs, "CXXMethodDecl", "mutation")[0]
+    ps = params_of(d)
+    pgm, prb = ps[0].get("name"), ps[1].get("name")
+    sc = Scope(["this"], [prb])
+    cand, shape = mutation_block(kids(body_of(d)), sc, [("$" + prb, "sset")], pgm, True)
+    res["mutationCand"] = cand
+    res["mutationShape"] = shape
 
 
 def tr_crossover(res):
@@ -1184,6 +1238,8 @@ def render(res):
     L += ["/-- enum i_mep::crossover_t (without NUM_CROSSOVERS) -/", "def flavours : List String := " + strs(res["flavours"]), ""]
     L += ["/-- i_mep::i_mep(const problem &): genome writes in program order -/", "def ctor : List Write := " + lean_writes(res["ctor"]), ""]
     L += ["def ctorBest : E × E := (%s, %s)" % (lean_e(res["ctorBest"][0]), lean_e(res["ctorBest"][1])), ""]
+    L += ["/-- i_mep(const problem &): genome_(rows, columns) – `.var 11` = env.mep.code_length, `.var 12` = sset.categories() -/",
+          "def ctorDims : E × E := (%s, %s)" % (lean_e(res["ctorDims"][0]), lean_e(res["ctorDims"][1])), ""]
     L += ["/-- i_mep::mutation: the gene drawn for the locus (row `.var 3`, column `.var 4`) of the iterator -/",
           "def mutationCand : Src := " + lean_src(res["mutationCand"]), "",
           "def mutationShape : List String := " + strs(res["mutationShape"]), ""]
